@@ -429,33 +429,39 @@ func (f *Frame) execBuiltin(cur *blockCur, in ssa.Instruction, b *ssa.Builtin, c
 	case "ssa:wrapnilchk":
 		return args[0]
 	case "Slice": // unsafe.Slice(ptr, n)
-		c.assume("unsafe.Slice(p, n) is the slice of n elements whose backing array is the object p points to")
+		c.ptrModel()
+		c.assume("unsafe.Slice(p, n): n elements starting at the element p points to (p = unsafe.SliceData of some slice, or an opaque pointer standing for element 0 of its own array)")
 		n := c.toIdx(args[1])
 		f.safety("unsafe-slice", cur, c.iLe(c.so.idxLit(0), n), in, "")
-		return Val{T: res.Type(), S: c.define(f.prefixSym()+res.Name(), "Slice", fmt.Sprintf("(mk_slice %s %s %s %s)", c.termOf(args[0]), c.so.idxLit(0), n, n))}
+		p := c.termOf(args[0])
+		return Val{T: res.Type(), S: c.define(f.prefixSym()+res.Name(), "Slice", fmt.Sprintf("(mk_slice (ptr_ref %s) (ptr_off %s) %s %s)", p, p, n, n))}
 	case "SliceData": // unsafe.SliceData(s)
-		c.assume("unsafe.SliceData(s) is the reference of s's backing array (offset folded away: valid for offset 0)")
-		return Val{T: res.Type(), S: c.define(f.prefixSym()+res.Name(), "Int", fmt.Sprintf("(s_ref %s)", args[0].S))}
+		c.ptrModel()
+		c.assume("unsafe.SliceData(s): pointer to element 0 of s (nil for a slice without backing array)")
+		sv := args[0].S
+		return Val{T: res.Type(), S: c.define(f.prefixSym()+res.Name(), "Int", fmt.Sprintf("(ite (= (s_ref %s) 0) 0 (elem_ptr (s_ref %s) (s_off %s)))", sv, sv, sv))}
 	case "String": // unsafe.String(ptr, n)
-		c.assume("unsafe.String(p, n) is an abstract string str_of_ptr(p, n) of length n")
-		c.needDecl("str_of_ptr", fmt.Sprintf("(declare-fun str_of_ptr (Int %s) Str)", c.so.idxSort()))
-		if !c.needed["str_of_ptr_ax"] {
-			c.needed["str_of_ptr_ax"] = true
-			if c.mode == ModeInt {
-				c.axiom("(forall ((p Int) (n Int)) (! (=> (>= n 0) (= (slen (str_of_ptr p n)) n)) :pattern ((str_of_ptr p n))))", "str_of_ptr")
-			}
-		}
+		c.ptrModel()
+		c.assume("unsafe.String(p, n): the string of the n bytes p points to, as they are at the time of the call (the bytes must not be modified afterwards: Go's own requirement)")
 		n := c.toIdx(args[1])
 		f.safety("unsafe-string", cur, c.iLe(c.so.idxLit(0), n), in, "")
-		return Val{T: res.Type(), S: c.define(f.prefixSym()+res.Name(), "Str", fmt.Sprintf("(str_of_ptr %s %s)", c.termOf(args[0]), n))}
+		p := c.termOf(args[0])
+		hb := cur.st.get(c.so.heapArr(types.Typ[types.Byte]))
+		c.bytesToStr(hb, "(mk_slice 0 0 0 0)") // declares str_of_bytes and its axioms
+		return Val{T: res.Type(), S: c.define(f.prefixSym()+res.Name(), "Str", fmt.Sprintf("(ite (= %s 0) str_empty (str_of_bytes (select %s (ptr_ref %s)) (ptr_off %s) %s))", p, hb, p, p, n))}
 	case "StringData": // unsafe.StringData(s)
-		c.needDecl("str_of_ptr", fmt.Sprintf("(declare-fun str_of_ptr (Int %s) Str)", c.so.idxSort()))
+		c.ptrModel()
 		c.needDecl("str_data", "(declare-fun str_data (Str) Int)")
-		if !c.needed["str_data_ax"] {
-			c.needed["str_data_ax"] = true
-			c.axiom("(forall ((s Str)) (! (= (str_of_ptr (str_data s) (slen s)) s) :pattern ((str_data s))))", "str_data")
+		c.assume("unsafe.StringData(s): a pointer to bytes that equal the bytes of s")
+		sv := args[0].S
+		pn := c.define(f.prefixSym()+res.Name(), "Int", fmt.Sprintf("(str_data %s)", sv))
+		if c.mode == ModeInt {
+			hb := cur.st.get(c.so.heapArr(types.Typ[types.Byte]))
+			cur.assume(fmt.Sprintf("(forall ((i!sd Int)) (! (=> (and (<= 0 i!sd) (< i!sd (slen %s))) (= (select (select %s (ptr_ref %s)) (+ (ptr_off %s) i!sd)) (sat %s i!sd))) :pattern ((select (select %s (ptr_ref %s)) (+ (ptr_off %s) i!sd))) :pattern ((sat %s i!sd))))",
+				sv, hb, pn, pn, sv, hb, pn, pn, sv))
+			cur.assume(fmt.Sprintf("(=> (> (slen %s) 0) (> (ptr_ref %s) 0))", sv, pn))
 		}
-		return Val{T: res.Type(), S: c.define(f.prefixSym()+res.Name(), "Int", fmt.Sprintf("(str_data %s)", args[0].S))}
+		return Val{T: res.Type(), S: pn}
 	case "Add":
 		f.unsupported("unsafe.Add")
 	case "clear":
